@@ -144,7 +144,10 @@ def agrees (s : Sim) (c : Ctx) (o : Obs) (before after : St) (labels : List Labe
              (after.queue.zip o.q).all (fun (m, (_, d)) => match getW after m with | some w => w.done == d | none => false)
   let flagsOk := after.imm == o.imm && after.bgScheduled == o.sched && after.bgError == o.err && after.shuttingDown == o.shut
   let exitOk := pcClass after c == o.exit
-  let lsOk := match s.ls0 with
+  -- a group whose log write failed is not committed, but the implementation still consumes its sequence numbers
+  -- (versions->last_sequence is set after the write whatever its outcome): the baseline is re-read after such a step
+  let failedCommit := labels.any fun l => match l with | .wCommit _ true => true | _ => false
+  let lsOk := failedCommit || match s.ls0 with
     | some l0 => l0 + publishedEntries s.counts after == o.ls
     | none => true
   -- writers woken through their own condition variable
@@ -211,6 +214,11 @@ def handleCs (s : Sim) (o : Obs) : Sim :=
     else if c.role == "bg" then
       s.stepAll c o (bgCandidates o) none [] true
     else s
+  -- re-read the sequence baseline (see `agrees`): only ever needed after a failed commit
+  let s1 := match s1.states.head?, s1.ls0 with
+    | some st, some l0 => if o.err && l0 + publishedEntries s1.counts st != o.ls && o.ls ≥ publishedEntries s1.counts st
+                          then { s1 with ls0 := some (o.ls - publishedEntries s1.counts st) } else s1
+    | _, _ => s1
   s1.setCtx { c with nCs := c.nCs + 1 }
 
 def handleLine (s : Sim) (line : String) : Sim :=
